@@ -122,7 +122,7 @@ def mutate_line(code, rng):
 
 def sh(cmd, cwd=None, env=None, timeout=None):
     try:
-        r = subprocess.run(cmd, shell=True, cwd=cwd, env=env, stdout=subprocess.PIPE, stderr=subprocess.STDOUT, text=True, timeout=timeout)
+        r = subprocess.run(cmd, shell=True, executable="/bin/bash", cwd=cwd, env=env, stdout=subprocess.PIPE, stderr=subprocess.STDOUT, text=True, timeout=timeout)
         return r.returncode, r.stdout
     except subprocess.TimeoutExpired as e:
         return 124, (e.stdout or "") if isinstance(e.stdout, str) else ""
@@ -184,7 +184,7 @@ def main():
         sh("git checkout -q -- .", cwd=WT)
         open(path, "w").write("\n".join(lines))
         t0 = time.time()
-        rc, out = sh("nice cmake --build _build -j 6 2>&1 | tail -5 && nice cmake --build _build -j 6 --target tests 2>&1 | tail -5", cwd=WT, timeout=1800)
+        rc, out = sh("set -o pipefail; nice cmake --build _build -j 6 2>&1 | tail -5 && nice cmake --build _build -j 6 --target tests 2>&1 | tail -5", cwd=WT, timeout=1800)
         if "error" in out or "FAILED" in out or rc != 0:
             rec["outcome"] = "does-not-compile"
         else:
